@@ -72,5 +72,16 @@ def obligations(tier):
                   encodes=[Z + 'datetime_parser:ChineseDateTimeParser._merge_date_and_time'], stubs=['date extractor / parser deliver one symbolic date; the time extractor delivers the real match of the template']))
     obs.append(Ob('O7.7-known-f62', 'sx', 'harness.C07zh:h_zh_date_and_time', slices=[{'desc': '晚上', 'form': 'hour', 'f62': 'only'}, {'desc': '早上', 'form': 'digit', 'f62': 'only'}], timeout=t, finding='F62',
                   descr='region of finding F62 (the merge step re-applies a morning / evening shift the time parser has already decided)'))
+    sw = [('spanish', 'de la tarde', 'pm'), ('spanish', 'de la noche', 'pm'), ('spanish', 'de la mañana', 'am'), ('spanish', 'de la madrugada', 'am'), ('french', 'du soir', 'pm'), ('french', 'du matin', 'am'),
+          ('portuguese', 'da manhã', 'am'), ('italian', 'di mattina', 'am'), ('italian', 'del mattino', 'am'), ('german', 'morgens', 'am'), ('dutch', 'in de middag', 'pm'), ('dutch', "'s middags", 'pm'),
+          ('dutch', "'s avonds", 'pm'), ('dutch', "'s ochtends", 'am')]
+    obs.append(Ob('O7.8-suffix-cultures', 'sx', 'harness.C07x:h_suffix', twin='harness.C07x:t_suffix', slices=[{'lang': l, 'word': w, 'kind': k} for l, w, k in sw], timeout=t,
+                  descr="worded am / pm suffixes of es, fr, pt, it, de, nl ('de la tarde', 'du soir', 'da manhã', \"'s avonds\" ...) through the real BaseTimeParser.match_to_time with each culture's real configuration "
+                        '(adjust_by_suffix and its suffix patterns): a pm word turns an hour below 12 into hour + 12 and leaves 12 alone, an am word turns 12 into 0; the time is not ambiguous',
+                  bounds='h 1..12, m 0..59; one slice per (culture, word) the port supports; the pm words of pt / it / de are finding F67',
+                  encodes=['recognizers_date_time.date_time.base_time:BaseTimeParser.match_to_time', 'recognizers_date_time.date_time.spanish.time_parser_config:SpanishTimeParserConfiguration.adjust_by_suffix'],
+                  stubs=['regex match object stub with the groups hour / min / suffix']))
+    f67 = [('portuguese', 'da tarde', 'pm'), ('italian', 'del pomeriggio', 'pm'), ('italian', 'di sera', 'pm'), ('german', 'nachmittags', 'pm'), ('german', 'am nachmittag', 'pm')]
+    obs.append(Ob('O7.8-known-f67', 'sx', 'harness.C07x:h_suffix', slices=[{'lang': l, 'word': w, 'kind': k} for l, w, k in f67], timeout=t, finding='F67', descr='region of finding F67 (hour 12 with a worded pm suffix stays ambiguous in pt, it, de)'))
     obs.append(Ob('O7.6-witness-f49', 'fn', 'harness.witness:api_witness', slices=[{'w': 'F49'}], timeout=t, finding='F49', descr='API witness of F49 (傍晚13点 -> TIMEX T25, value 00:00:00)'))
     return obs
